@@ -8,8 +8,11 @@
 //!    moment the stream pulls that frame from the data channel (the channel hands out exactly
 //!    one frame per poll, so "pulled" = "handled by the stream");
 //! Oracle (exactly the statement): no panic; a read returns data (Ok(n>0)) only if the read
-//! half was open when the call started; a write is accepted (Ok(n>0)) only if the write half was
-//! open when the call started; every operation that *starts* after the reset was pulled must
+//! half is open both when the call starts and in the reference state reached after every frame
+//! the stream consumed from the channel up to its return (counted from outside, so independent of
+//! the order in which the implementation consults its own state); likewise a write is accepted
+//! (Ok(n>0)) only if the write half is open at the start and no STOP_SENDING / RESET was consumed
+//! before it returned; every operation that *starts* after the reset was pulled must
 //! return Err(ConnectionReset). Nothing is demanded in the other direction (an open half may
 //! still refuse). Ok(0) (EOF) is not "a successful read of data".
 
@@ -175,7 +178,7 @@ pub struct Sys {
     s: [Side; 2],
     c: &'static Mutex<Counters>,
 }
-static COUNTERS: Mutex<Counters> = Mutex::new(Counters { ops_after_reset: 0, reads_with_closed_half: 0, writes_with_closed_half: 0, pending_results: 0, data_reads: 0 });
+static COUNTERS: Mutex<Counters> = Mutex::new(Counters { ops_after_reset: 0, reads_with_closed_half: 0, writes_with_closed_half: 0, pending_results: 0, data_reads: 0, writes_closed_during_op: 0 });
 fn counters() -> Counters {
     COUNTERS.lock().unwrap().clone()
 }
@@ -186,6 +189,7 @@ pub struct Counters {
     pub writes_with_closed_half: u64,
     pub pending_results: u64,
     pub data_reads: u64,
+    pub writes_closed_during_op: u64,
 }
 
 const BIG: usize = 16 * 1024 - 7; // MAX_DATA_LEN
@@ -334,6 +338,26 @@ impl Sys {
         if res == Res::Pending {
             self.c.lock().unwrap().pending_results += 1;
         }
+        // ---- reference state reached after every frame the stream pulled off its channel up to the
+        // return of this operation (counted from outside, independent of the stream's internal order)
+        let mut post = start.clone();
+        let mut pulled_flag_during_op = false;
+        {
+            let rx = self.s[i].rx.lock().unwrap();
+            for k in &rx.pulled[self.s[i].pulled_seen..] {
+                match k {
+                    Kind::Fin => post.r_closed = true,
+                    Kind::Stop => post.w_closed = true,
+                    Kind::Reset => {
+                        post.reset = true;
+                        post.r_closed = true;
+                        post.w_closed = true;
+                    }
+                    _ => continue,
+                }
+                pulled_flag_during_op = true;
+            }
+        }
         // ---- oracle
         if start.reset {
             self.c.lock().unwrap().ops_after_reset += 1;
@@ -347,10 +371,16 @@ impl Sys {
                 if start.r_closed {
                     return Err(format!("read-succeeds-with-read-half-closed :: side {side_name}: read returned {n} bytes although the read half is closed in the reference automaton; state {before} -> {after}"));
                 }
+                if post.r_closed {
+                    return Err(format!("read-succeeds-after-consuming-FIN-or-RESET :: side {side_name}: read returned {n} bytes although a FIN/RESET was consumed from the channel before it returned; state {before} -> {after}"));
+                }
             }
             (Op::Write | Op::WriteBig, Res::Ok(n)) if *n > 0 => {
                 if start.w_closed {
                     return Err(format!("write-succeeds-with-write-half-closed :: side {side_name}: write accepted {n} bytes although the write half is closed in the reference automaton; state {before} -> {after}"));
+                }
+                if post.w_closed {
+                    return Err(format!("write-succeeds-after-consuming-STOP_SENDING-or-RESET :: side {side_name}: write accepted {n} bytes although a STOP_SENDING/RESET was consumed from the channel before it returned; state {before} -> {after}"));
                 }
             }
             _ => {}
@@ -360,6 +390,9 @@ impl Sys {
         }
         if matches!(op, Op::Write | Op::WriteBig) && start.w_closed {
             self.c.lock().unwrap().writes_with_closed_half += 1;
+        }
+        if matches!(op, Op::Write | Op::WriteBig) && !start.w_closed && post.w_closed && pulled_flag_during_op {
+            self.c.lock().unwrap().writes_closed_during_op += 1;
         }
         // ---- reference automaton: local effects
         {
@@ -451,8 +484,9 @@ pub fn run(ctx: &Ctx) -> Outcome {
     out.count("writes_attempted_with_closed_half", c.writes_with_closed_half);
     out.count("reads_attempted_with_closed_half", c.reads_with_closed_half);
     out.count("data_reads", c.data_reads);
-    if c.ops_after_reset == 0 || c.pending_results == 0 || c.writes_with_closed_half == 0 || c.reads_with_closed_half == 0 || c.data_reads == 0 {
-        out.machinery(format!("vacuity: exploration did not exercise ops after reset / pending close / denied write / denied read / data read: {c:?}"));
+    out.count("writes_whose_half_was_closed_by_a_flag_consumed_during_the_call", c.writes_closed_during_op);
+    if c.ops_after_reset == 0 || c.pending_results == 0 || c.writes_with_closed_half == 0 || c.reads_with_closed_half == 0 || c.data_reads == 0 || c.writes_closed_during_op == 0 {
+        out.machinery(format!("vacuity: exploration did not exercise ops after reset / pending close / denied write / denied read / data read / write closed by a flag consumed during the call: {c:?}"));
     }
     let ddepth = ctx.tier.pick(4, 5);
     let (n, capped, v2) = bfs::dfs_all(Sys::new, ddepth, 8_000_000);
